@@ -11,6 +11,19 @@ import MalVerif.Model.LangGraph
 import MalVerif.Model.Legacy
 import MalVerif.Model.Neo4j
 import MalVerif.Py.AbsVisitor
+import MalVerif.Py.Gen.Apriori
+import MalVerif.Py.Gen.NodeDelegates
+import MalVerif.Py.Gen.Query
+import MalVerif.Py.Gen.Attach
+import MalVerif.Py.GenAgSerial.CopyGraph
+import MalVerif.Py.GenAgSerial.FromDict
+import MalVerif.Py.GenAgSerial.ToDictGraph
+import MalVerif.Py.AbsAgSerial
+import MalVerif.Py.GenModel.Assets
+import MalVerif.Py.GenModel.Assoc
+import MalVerif.Py.AbsModel
+import MalVerif.Py.GenLang.Attacks
+import MalVerif.Py.AbsLang
 open Lean MalVerif
 
 namespace Drv
@@ -692,6 +705,374 @@ def opVisit (j : Json) : R Json := do
   | .ok v => pure (jO [("spec", vToJson v)])
   | .error e => pure (jO [("error", jS (reprStr e))])
 
+/-! ### the GENERATED code, executed (`genexec`): the same histories / lookups as `ag_hist`, `model_hist`, `resolve`, run with
+the definitions of `Py/Gen*/*.lean` on the heaps of the preludes.  Everything below is glue (parsing the operation,
+allocating the object the Python caller constructs, reading the observables); it takes no decision of its own: whether an
+operation raises, and what the heap is afterwards, is what the generated function returns.  A raising operation leaves the
+heap as it was before the call (the `Except` monad drops the heap; what CPython leaves behind after an exception is
+checked by the oracle of the correspondence, not here). -/
+namespace GenX
+open MalVerif.Py
+
+def pyErrName : PyErr → String
+  | .valueError => "ValueError" | .attackGraphException => "AttackGraphException" | .lookupError => "LookupError"
+  | .assertionError => "AssertionError" | .keyError => "KeyError" | .languageGraphException => "LanguageGraphException"
+  | .recursionError => "RecursionError" | .nonTermination => "NonTermination"
+  | .attackGraphStepExpressionError => "AttackGraphStepExpressionError" | .other => "OtherError"
+
+/-- a `ttc` dictionary from its canonical JSON text (`null` = `None`): the value under `name` as the string it is, every
+other value as compressed JSON text (the convention of `PyDictS`) -/
+def ttcOfText (t : String) : R (Option PyDictS) := do
+  match Json.parse t with
+  | .error e => throw s!"bad ttc text: {e}"
+  | .ok .null => pure none
+  | .ok j =>
+    let kvs ← jpairs j
+    pure (some (kvs.map (fun (k, v) => (k, match k, v with | "name", .str x => x | _, _ => v.compress))))
+
+def ttcToText (d : Option PyDictS) : String :=
+  match d with
+  | none => "null"
+  | some l => "{" ++ ",".intercalate (l.map (fun (k, v) => (jS k).compress ++ ":" ++ (if k == "name" then (jS v).compress else v))) ++ "}"
+
+/-- constant-time object stores (the heap updates of the generated code build chains of closures) -/
+def normH (s : H) : H :=
+  let na := (Array.range s.nfresh).map s.n
+  let aa := (Array.range s.afresh).map s.a
+  { s with n := fun r => na.getD r {}, a := fun r => aa.getD r {} }
+
+def graphOf (s : H) : PyGraph :=
+  { nodes := s.nodes, attackers := s.attackers, _id_to_node := s._id_to_node, _full_name_to_node := s._full_name_to_node,
+    _id_to_attacker := s._id_to_attacker, next_node_id := s.next_node_id, next_attacker_id := s.next_attacker_id }
+
+def jOptI (o : Option Int) : Json := match o with | some i => jI i | none => Json.null
+
+def obsH (s : H) : Json :=
+  let nid (r : Nat) : Json := jOptI (s.n r).id
+  let aid (a : Nat) : Json := jOptI (s.a a).id
+  jO [("nodes", jsonOfList (fun r =>
+          let o := s.n r
+          Json.arr #[nid r, jS (Gen.node_full_name s r), jsonOfList nid o.children, jsonOfList nid o.parents,
+                     jsonOfList aid o.compromised_by, jB o.is_viable, jB o.is_necessary,
+                     Json.arr #[jS o.name, jS o.type, jS (ttcToText o.ttc), Drv.jOptS' (o.defense_status.map (·.text)),
+                                Drv.jOptB' o.existence_status, Drv.jOptS' o.mitre_info, jsonOfList jS o.tags, jS o.extras,
+                                Drv.jOptS' (o.asset.map (·.name))]]) s.nodes),
+      ("attackers", jsonOfList (fun a =>
+          let o := s.a a
+          Json.arr #[aid a, jS o.name, jsonOfList nid o.entry_points, jsonOfList nid o.reached_attack_steps]) s.attackers),
+      ("idIdx", jsonOfList (fun (e : Int × Nat) => Json.arr #[jI e.1, nid e.2]) s._id_to_node),
+      ("nameIdx", jsonOfList (fun (e : String × Nat) => Json.arr #[jS e.1, nid e.2]) s._full_name_to_node),
+      ("attIdx", jsonOfList (fun (e : Int × Nat) => Json.arr #[jI e.1, aid e.2]) s._id_to_attacker),
+      ("next", Json.arr #[jI s.next_node_id, jI s.next_attacker_id])]
+
+def assetOfName (nm : String) : PyAssetObj := { id := 0, name := nm }
+
+/-- the model entry points `[(asset, [steps])]` the harness builds from full names `asset:step` (grouped by asset,
+first occurrence first; the split is at the LAST colon) -/
+def groupEps (eps : List String) : List (PyAssetObj × List String) :=
+  let split (fn : String) : String × String :=
+    let parts := fn.splitOn ":"
+    (":".intercalate parts.dropLast, parts.getLast!)
+  let d := eps.foldl (fun (acc : List (String × List String)) fn =>
+    let (a, st) := split fn
+    dictSet acc a ((dictGet acc a).getD [] ++ [st])) []
+  d.map (fun e => (assetOfName e.1, e.2))
+
+def dummyEnv : EvalEnv :=
+  { get_associated_assets_by_field_name := fun _ _ => [], _get_variable_for_asset_type_by_name := fun _ _ => .error .other,
+    get_asset_by_name := fun _ => none, is_subasset_of := fun _ _ => false, whileFuel := 0, evalFuel := 0 }
+
+def agStepGen (s : H) (j : Json) : R (H × Json × Json) := do
+  let k ← jfield jstr j "k"
+  let ok (s' : H) (out : Json := Json.null) : R (H × Json × Json) := pure (s', Json.null, out)
+  let res (r : Except PyErr H) : R (H × Json × Json) :=
+    match r with | .ok s' => pure (s', Json.null, Json.null) | .error e => pure (s, jS (pyErrName e), Json.null)
+  let refs (l : List Nat) : Json := jsonOfList (fun r => jOptI (s.n r).id) l
+  match k with
+  | "add_node" =>
+    let type ← jfield jstr j "type"
+    let defOne ← jfield jbool j "defOne"
+    let suppress ← jfield jbool j "suppress"
+    let defense := match (← jfieldOpt jstr j "defense") with
+      | some d => some d
+      | none => if type == "defense" then some (if defOne then "1.0" else "0.5") else none
+    let tags := match (← jfieldOpt (jlist jstr) j "tags") with
+      | some t => t
+      | none => if suppress then ["suppress"] else []
+    let o : PyNode := { type := type, name := ← jfield jstr j "name", ttc := ← ttcOfText ((← jfieldOpt jstr j "ttc").getD "null"),
+                        asset := (← jfieldOpt jstr j "asset").map assetOfName,
+                        defense_status := defense.map pyFloatOfStr, existence_status := ← jfieldOpt jbool j "exist",
+                        is_viable := ← jfield jbool j "viable", is_necessary := ← jfield jbool j "necessary",
+                        mitre_info := ← jfieldOpt jstr j "mitre", tags := tags, extras := (← jfieldOpt jstr j "extras").getD "{}" }
+    let (s1, r) := s.allocN o
+    res (Gen.graph_add_node s1 r (← jfieldOpt jint j "id"))
+  | "link" =>
+    let p ← jfield jnat j "p"; let c ← jfield jnat j "c"
+    let s1 := s.setN p { s.n p with children := (s.n p).children ++ [c] }
+    ok (s1.setN c { s1.n c with parents := (s1.n c).parents ++ [p] })
+  | "link1" =>
+    let p ← jfield jnat j "p"; let c ← jfield jnat j "c"
+    if (← jfield jstr j "side") == "child" then ok (s.setN p { s.n p with children := (s.n p).children ++ [c] })
+    else ok (s.setN c { s.n c with parents := (s.n c).parents ++ [p] })
+  | "remove_node" => res (Gen.graph_remove_node s (← jfield jnat j "n"))
+  | "add_attacker" =>
+    let (s1, a) := s.allocA { name := ← jfield jstr j "name", entry_points := [], reached_attack_steps := [] }
+    res (Gen.graph_add_attacker s1 a (← jfieldOpt jint j "id") (← jfield (jlist jint) j "entry") (← jfield (jlist jint) j "reached"))
+  | "add_node_again" => res (Gen.graph_add_node s (← jfield jnat j "n") (← jfieldOpt jint j "id"))
+  | "add_attacker_again" =>
+    res (Gen.graph_add_attacker s (← jfield jnat j "a") (← jfieldOpt jint j "id") (← jfield (jlist jint) j "entry")
+          (← jfield (jlist jint) j "reached"))
+  | "remove_attacker" => res (Gen.graph_remove_attacker s (← jfield jnat j "a"))
+  | "compromise" =>
+    let a ← jfield jnat j "a"; let n ← jfield jnat j "n"
+    if (← jfieldOpt jstr j "side") == some "node" then ok (Gen.node_compromise s n a) else ok (Gen.attacker_compromise s a n)
+  | "undo" =>
+    let a ← jfield jnat j "a"; let n ← jfield jnat j "n"
+    if (← jfieldOpt jstr j "side") == some "node" then res (Gen.node_undo_compromise s n a) else res (Gen.attacker_undo_compromise s a n)
+  | "attach" =>
+    let atts ← jfield (jlist (fun e => do
+      let l ← jarr e
+      match l with
+      | [nm, eps] => pure ({ name := some (← jstr nm), entry_points := groupEps (← jlist jstr eps) } : PyAttackerInfo)
+      | _ => throw "bad attach entry")) j "atts"
+    res (Gen.graph_attach_attackers s { dummyEnv with has_model := true, attackers := atts })
+  | "set_labels" =>
+    let labs ← jfield (jlist (fun e => do
+      let l ← jarr e
+      match l with
+      | [r, v, n] => pure ((← jnat r), (← jbool v), (← jbool n))
+      | _ => throw "bad label entry")) j "labels"
+    ok (labs.foldl (fun s (r, v, n) => s.setN r { s.n r with is_viable := v, is_necessary := n }) s)
+  | "prune" => res (Gen.prune_unviable_and_unnecessary_nodes s)
+  | "calculate" => res (Gen.calculate_viability_and_necessity s)
+  | "touch" =>
+    let n ← jfield jnat j "n"
+    match (← jfield jstr j "field") with
+    | "tags" => ok (s.setN n { s.n n with tags := (s.n n).tags ++ ["touched"] })
+    | "extras" => let t ← jfield jstr j "new"; ok (s.setN n { s.n n with extras := t })
+    | "ttc" => let t ← jfield jstr j "new"; ok (s.setN n { s.n n with ttc := ← ttcOfText t })
+    | f => throw s!"bad touch field {f}"
+  | "trav" => ok s (jB (Gen.is_node_traversable_by_attacker s (← jfield jnat j "n") (← jfield jnat j "a")))
+  | "surface" => ok s (refs (Gen.get_attack_surface s (← jfield jnat j "a")))
+  | "update_surface" =>
+    ok s (refs (Gen.update_attack_surface_add_nodes s (← jfield jnat j "a") (← jfield (jlist jnat) j "cur") (← jfield (jlist jnat) j "nodes")))
+  | "defense_surface" => ok s (refs (Gen.get_defense_surface s))
+  | "enabled_defenses" => ok s (refs (Gen.get_enabled_defenses s))
+  | "lookup" =>
+    let ids ← jfield (jlist jint) j "ids"
+    let names ← jfield (jlist jstr) j "names"
+    let aids ← jfield (jlist jint) j "aids"
+    let f (o : Option Nat) : Json := match o with | some r => jOptI (s.n r).id | none => Json.null
+    let fa (o : Option Nat) : Json := match o with | some r => jOptI (s.a r).id | none => Json.null
+    ok s (jO [("ids", jsonOfList (fun i => f (Gen.graph_get_node_by_id s i)) ids),
+              ("names", jsonOfList (fun n => f (Gen.graph_get_node_by_full_name s n)) names),
+              ("aids", jsonOfList (fun i => fa (Gen.graph_get_attacker_by_id s i)) aids)])
+  | _ => throw s!"bad ag op {k}"
+
+/-- `save_to_file` + `load_from_file` with the generated `_to_dict` / `_from_dict`; the file layer in between is the
+modelled `jsonRTpy` / `yamlRTpy`; the loaded graph lives in a new heap whose references start at 0 -/
+def saveLoadGen (s : H) (fmt : String) (withModel : Bool) : Except PyErr H := do
+  let d ← Gen.graph__to_dict (s.attackers.length + 2) s
+  let d' := if fmt == "json" then jsonRTpy d else yamlRTpy d
+  let model : Option PyModel := if withModel then some { get_asset_by_name := fun nm => some (assetOfName nm) } else none
+  let (s', aux) ← Gen.graph__from_dict {} d' model
+  pure { s' with nfresh := aux.nfresh, afresh := aux.afresh }
+
+/-- `copy.deepcopy(graph)`: the copy becomes the current graph, the original the other one (same object stores) -/
+def deepcopyGen (s : H) : Except PyErr (H × PyGraph) := do
+  let (g2, (s', aux, _)) ← Gen.graph___deepcopy__ (s, { nfresh := s.nfresh, afresh := s.afresh }, {})
+  pure (({ s' with nfresh := aux.nfresh, afresh := aux.afresh } : H).withGraph g2, graphOf s)
+
+def opGenAgHist (j : Json) : R Json := do
+  let ops ← jfield jarr j "ops"
+  let mut s : H := {}
+  let mut other : Option PyGraph := none
+  let mut outs : Array Json := #[]
+  for o in ops do
+    let k ← jfield jstr o "k"
+    let mut err := Json.null
+    let mut out := Json.null
+    if k == "save_load" then
+      match saveLoadGen s (← jfield jstr o "fmt") (← jfield jbool o "withModel") with
+      | .ok s' => s := s'; other := none
+      | .error e => err := jS (pyErrName e)
+    else if k == "deepcopy" then
+      match deepcopyGen s with
+      | .ok (s', og) => s := s'; other := some og
+      | .error e => err := jS (pyErrName e)
+    else if k == "switch" then
+      match other with
+      | some t =>
+        let cur := graphOf s
+        s := s.withGraph t
+        other := some cur
+      | none => throw "switch without deepcopy"
+    else
+      let (s', e, ou) ← agStepGen s o
+      s := s'; err := e; out := ou
+    s := normH s
+    let oo : Json := match other with | some t => obsH (s.withGraph t) | none => Json.null
+    outs := outs.push (jO [("err", err), ("out", out), ("obs", obsH s), ("other", oo)])
+  pure (Json.arr outs)
+
+/-! #### `apriori`: the generated `calculate_viability_and_necessity` on the graph of the `apriori` op -/
+def opGenApriori (j : Json) : R Json := do
+  let g ← jfield (jlist Drv.parseANode) j "nodes"
+  let order ← jfield (jlist jnat) j "order"
+  let v0 := (← jfieldOpt (jlist jbool) j "viable0").getD []
+  let n0 := (← jfieldOpt (jlist jbool) j "necessary0").getD []
+  let arr := g.toArray
+  let node (i : Nat) : PyNode :=
+    match arr[i]? with
+    | none => {}
+    | some o =>
+      { type := Drv.ntypeName o.type, name := s!"n{i}", id := some (Int.ofNat i), children := o.children, parents := o.parents,
+        defense_status := if o.type == .defense then some (pyFloatOfStr (if o.defOne then "1.0" else if o.defZero then "0.0" else "0.5")) else none,
+        existence_status := if o.type == .exist || o.type == .notExist then some o.exist else none,
+        ttc := if o.ttcSet then some (match o.ttcName with | some n => [("name", n)] | none => [("type", "\"function\"")]) else none,
+        is_viable := v0.getD i true, is_necessary := n0.getD i true }
+  let s : H := { n := node, nfresh := g.length, nodes := order }
+  match Gen.calculate_viability_and_necessity s with
+  | .error e => pure (jO [("error", jS (pyErrName e))])
+  | .ok s' =>
+    let idx := List.range g.length
+    pure <| jO [("viable", jsonOfList jB (idx.map (fun i => (s'.n i).is_viable))),
+                ("necessary", jsonOfList jB (idx.map (fun i => (s'.n i).is_necessary)))]
+
+end GenX
+
+/-! #### instance-model histories with the generated `model_*` / `attachment_*` functions -/
+namespace GenXM
+open MalVerif.PyM
+
+def pyErrName : PyErr → String
+  | .valueError => "ValueError" | .lookupError => "LookupError" | .duplicateModelAssociationError => "DuplicateModelAssociationError"
+  | .modelAssociationException => "ModelAssociationException" | .keyError => "KeyError" | .attributeError => "AttributeError"
+  | .assertionError => "AssertionError" | .nonTermination => "NonTermination" | .recursionError => "RecursionError" | .other => "OtherError"
+
+def normH (s : H) : H :=
+  let aa := (Array.range s.afresh).map s.a
+  let la := (Array.range s.lfresh).map s.l
+  let ta := (Array.range s.tfresh).map s.t
+  let ea := (Array.range s.efresh).map s.e
+  { s with a := fun r => aa.getD r {}, l := fun r => la.getD r {}, t := fun r => ta.getD r {}, e := fun r => ea.getD r {} }
+
+/-- python_jsonschema_objects `==` (a parameter of the translation): `as_dict()` of both objects is compared.  For an asset
+that lists no association this is the comparison of its scalar properties; the dictionary of an asset that lists
+associations contains those (and through them the asset again: CPython ends in `RecursionError`) — then, and for
+association objects, only an object is equal to itself. -/
+def envOf (s : H) : ModelEnv :=
+  { eqA := fun x y =>
+      let p := s.a x; let q := s.a y
+      p.associations.isEmpty && q.associations.isEmpty && p.id == q.id && p.name == q.name && p.type == q.type &&
+      p.defenses == q.defenses && p.extras == q.extras
+    eqL := fun _ _ => false
+    whileFuel := s.asset_names.length + 2 }
+
+def mStepGen (L : Lang) (s : H) (j : Json) : R (H × Json × Json) := do
+  let k ← jfield jstr j "k"
+  let env := envOf s
+  let ok (s' : H) (out : Json := Json.null) : R (H × Json × Json) := pure (s', Json.null, out)
+  let bad (e : String) : R (H × Json × Json) := pure (s, jS e, Json.null)
+  let res (r : Except PyErr H) : R (H × Json × Json) :=
+    match r with | .ok s' => pure (s', Json.null, Json.null) | .error e => pure (s, jS (pyErrName e), Json.null)
+  match k with
+  | "add_asset" =>
+    let defs ← jfield (jlist (fun e => do
+      match (← jarr e) with
+      | [a, b] => pure ((← jstr a), (← jstr b))
+      | _ => throw "bad defense")) j "defenses"
+    let ty ← jfield jstr j "type"
+    let ex ← jfield jstr j "extras"
+    -- the guards of the pjs class constructor (not part of `model.py`; the modelled functions of the `model` domain)
+    if (L.findAsset ty).isNone then bad "LookupError" else
+    if !(← jfield jbool j "defsOk") || !(defs.all (fun d => (MS.defensesOf L ty).any (·.1 = d.1))) then bad "ValidationError" else
+    let o : PyAsset := { type := ty, name := ← jfieldOpt jstr j "name", defenses := defs, extras := if ex == "{}" then none else some ex }
+    res (Gen.model_add_asset (newAssetObj s o) env s.afresh (← jfieldOpt jint j "id") (← jfield jbool j "allowDup"))
+  | "remove_asset" => res (Gen.model_remove_asset s env (← jfield jnat j "a"))
+  | "remove_asset_from_association" => res (Gen.model_remove_asset_from_association s env (← jfield jnat j "a") (← jfield jnat j "l"))
+  | "add_association" =>
+    let cls ← jfield jstr j "cls"
+    let left ← jfield (jlist jnat) j "left"
+    let right ← jfield (jlist jnat) j "right"
+    match (MS.assocClasses L).find? (·.cls = cls) with
+    | none => bad "LookupError"
+    | some c =>
+      if !(left.all (fun a => MS.okMember L c.ltype (s.a a).type) && MS.okCount c.lmax left.length &&
+           right.all (fun a => MS.okMember L c.rtype (s.a a).type) && MS.okCount c.rmax right.length) then bad "ValidationError" else
+      if h : c.lf ≠ c.rf then
+        res (Gen.model_add_association (newAssocObj s { cls := cls, lf := c.lf, rf := c.rf, left := left, right := right, distinct := h })
+               env s.lfresh)
+      else pure (s, jS "skip:one-field-association-class", Json.null)
+  | "remove_association" => res (Gen.model_remove_association s env (← jfield jnat j "l"))
+  | "set_assoc_extras" =>
+    let l ← jfield jnat j "l"
+    let ex ← jfield jstr j "extras"
+    ok (s.setL l { s.l l with extras := some ex })
+  | "add_attacker" =>
+    ok (Gen.model_add_attacker (newAttObj s { name := ← jfieldOpt jstr j "name" }) env s.tfresh (← jfieldOpt jint j "id"))
+  | "remove_attacker" => res (Gen.model_remove_attacker s env (← jfield jnat j "t"))
+  | "add_entry_point" => ok (Gen.attachment_add_entry_point s env (← jfield jnat j "t") (← jfield jnat j "a") (← jfield jstr j "step"))
+  | "remove_entry_point" => res (Gen.attachment_remove_entry_point s env (← jfield jnat j "t") (← jfield jnat j "a") (← jfield jstr j "step"))
+  | "lookup" =>
+    let ids ← jfield (jlist jint) j "ids"
+    let names ← jfield (jlist jstr) j "names"
+    let nb ← jfield (jlist (fun e => do
+      match (← jarr e) with
+      | [a, f] => pure ((← jnat a), (← jstr f))
+      | _ => throw "bad nb")) j "nbrs"
+    let f (o : Option Nat) : Json := match o with | some r => jI (attrInt (s.a r).id) | none => Json.null
+    let ft (o : Option Nat) : Json := match o with | some r => jI (optIntGet (s.t r).id) | none => Json.null
+    ok s (jO [("ids", jsonOfList (fun i => f (Gen.model_get_asset_by_id s env i)) ids),
+              ("names", jsonOfList (fun n => f (Gen.model_get_asset_by_name s env n)) names),
+              ("aids", jsonOfList (fun i => ft (Gen.model_get_attacker_by_id s env i)) ids),
+              ("nbrs", jsonOfList (fun (e : Nat × String) =>
+                  match Gen.model_get_associated_assets_by_field_name s env e.1 e.2 with
+                  | .ok l => jsonOfList (fun r => jI (attrInt (s.a r).id)) l
+                  | .error er => jS (pyErrName er)) nb)])
+  | _ => throw s!"bad model op {k}"
+
+def opGenModelHist (j : Json) : R Json := do
+  let L ← Drv.parseLang (← jget j "lang")
+  let ops ← jfield jarr j "ops"
+  let mut s : H := { name := "hist" }
+  let mut outs : Array Json := #[]
+  for o in ops do
+    let (s', err, out) ← mStepGen L s o
+    s := normH s'
+    outs := outs.push (jO [("err", err), ("out", out), ("obs", Drv.obsM L (abs s))])
+  pure (Json.arr outs)
+
+end GenXM
+
+/-! #### `_get_attacks_for_asset_type` of `Py/GenLang` -/
+namespace GenXL
+open MalVerif.Py MalVerif.Py.LSpec
+
+def langToJson (L : Lang) : Json :=
+  jsonOfList (fun (a : AssetDecl) => Json.arr #[jS a.name, Drv.jOptS a.superAsset, jsonOfList Drv.stepToJson a.steps,
+    jsonOfList (fun (st : StepDecl) => Json.arr #[Drv.jOptS st.ttcName, Drv.jOptS st.mitre]) a.steps]) L.assets
+
+/-- the queries `types` (a sequence, types may repeat) asked one after the other of ONE specification heap, as the real
+object is asked; after the last one the specification read back from the heap is compared with the one loaded -/
+def opGenResolve (j : Json) : R Json := do
+  let L ← Drv.parseLang (← jget j "lang")
+  let types ← jfield (jlist jstr) j "types"
+  let s0 := loadPy L
+  let mut s := s0
+  let mut outs : Array Json := #[]
+  for t in types do
+    match GenLang.lg__get_attacks_for_asset_type (pyFuelL s) s t with
+    | .error e => outs := outs.push (jO [("error", jS (GenX.pyErrName e))])
+    | .ok (s', acc) =>
+      s := s'
+      outs := outs.push (jsonOfList (fun (e : String × StepDecl) => Json.arr #[jS e.1, Drv.stepToJson e.2]) (absAnswer s acc))
+  pure (jO [("answers", Json.arr outs),
+            ("specUnchanged", jB ((langToJson (absLang s)).compress == (langToJson (absLang s0)).compress)),
+            ("loadedIsInput", jB ((langToJson (absLang s0)).compress == (langToJson L).compress))])
+
+end GenXL
+
 def dispatch (j : Json) : R Json := do
   let op ← jfield jstr j "op"
   match op with
@@ -712,6 +1093,10 @@ def dispatch (j : Json) : R Json := do
   | "load_doc" => opLoadDoc j
   | "tree" => opTree j
   | "visit" => opVisit j
+  | "gen_ag_hist" => GenX.opGenAgHist j
+  | "gen_apriori" => GenX.opGenApriori j
+  | "gen_model_hist" => GenXM.opGenModelHist j
+  | "gen_resolve" => GenXL.opGenResolve j
   | _ => throw "bad-op"
 
 def handle (line : String) : String :=
